@@ -43,7 +43,7 @@ m = dict(
                source_commits=hooks, add_only=True),
     engines=[dict(name="lean4-model+correspondence", path="/verif/lean", serves_properties=sorted(PROPS), kind_free_text="Lean 4 model and theorems; Go translators (xlate) and harness; python orchestrator ./check")],
     checks=checks,
-    notes="See DESIGN.md. known_findings.jsonl lists the one recorded finding (C16, F11) and the fix: commits (F1-F10). seeded/ holds 330 confirmed breaking changes (seven rounds of independently written changes + 10 reverted fixes) and seeded/RESULTS.md says which check reports each and how; validation/ holds the patches used to validate the semantic ties; DESIGN_errtext.md, DESIGN_fullstack.md, DESIGN_golite.md are addenda to DESIGN.md.",
+    notes="See DESIGN.md. known_findings.jsonl lists the one recorded finding (C16, F11) and the fix: commits (F1-F10, F12). seeded/ holds 370 confirmed breaking changes (eight rounds of independently written changes + 10 reverted fixes) and seeded/RESULTS.md says which check reports each and how; validation/ holds the patches used to validate the semantic ties; DESIGN_errtext.md, DESIGN_fullstack.md, DESIGN_golite.md are addenda to DESIGN.md.",
     not_applicable=[],
 )
 json.dump(m, open(os.path.join(os.path.dirname(os.path.abspath(__file__)), "MANIFEST.json"), "w"), indent=1)
